@@ -47,7 +47,8 @@ theorem C11_root_token (s : Sys) (t : Nat) (v n : String) (tr sp : Nat) (b : Boo
     (hr : s.reporterReady = true) (hc : s.cyc = none) :
     ∃ inner, assocGet (exec s t (.root v n tr sp b)).1.spans v = some (some inner) ∧
       inner.token.map (fun it => (it.traceId, it.parentId, it.isSampled)) = [(tr, sp, b)] := by
-  simp only [exec, hr, hc]
+  have hl : s.regLocked = false := by simp [Sys.regLocked, hc]
+  simp only [exec, hr, hl]
   cases b <;> simp [Sys.newSpan, assocGet_assocSet_same]
 
 /-- … and the collector stamps a token item's `(trace, parent)` on the record: the record of
